@@ -5,6 +5,7 @@
 import IbcVerif.Util.J
 import IbcVerif.Driver.Height
 import IbcVerif.Driver.Commit
+import IbcVerif.Driver.Keys
 open Lean
 namespace IbcVerif.Driver.Pure
 open IbcVerif.J
@@ -12,6 +13,7 @@ open IbcVerif.J
 def handlers : List (String → Json → Option (Except String Json)) :=
   [ IbcVerif.Driver.Height.handle
   , IbcVerif.Driver.Commit.handle
+  , IbcVerif.Driver.Keys.handle
   ]
 
 def handle (f : String) (j : Json) : Except String Json :=
